@@ -406,9 +406,11 @@ def subStep (subs : List (List Stmt)) (p : Nat × Nat) (orc : List Bool) : Step 
 
 def totalLen (subs : List (List Stmt)) : Nat := (subs.map List.length).sum
 
-/-- Step budget: between two condition evaluations a well-formed program never executes a
-statement twice, and there is one fall-through step per subroutine. -/
-def defaultFuel (n : Nat) (orc : List Bool) : Nat := (orc.length + 1) * (2 * n + 2) + 1
+/-- Step budget (`n` = number of statements).  Between two condition evaluations a program
+produced by the pipeline executes no statement twice (every cycle passes an `If`); the
+linearization is at most twice as long as the final code, and the state machine spends one extra
+step per `case` fall-through — `Props.C26.runSub_correct` proves that this budget suffices. -/
+def defaultFuel (n : Nat) (orc : List Bool) : Nat := (orc.length + 1) * (4 * n + 4) + 2
 
 def runFlatFuel (fuel : Nat) (C : List Stmt) (orc : List Bool) : Result :=
   runM (flatStep C) fuel 0 orc
